@@ -71,6 +71,18 @@ func main() {
 		fmt.Println(string(b))
 	case "dump":
 		dump(*repo, *verbose)
+	case "names":
+		// closure naming: x/tools ordinal name -> role-based name used by the tables
+		ctx, err := loadAll(*repo, "")
+		if err != nil {
+			fmt.Println("LOAD ERROR:", err)
+			os.Exit(2)
+		}
+		for _, fn := range ctx.P.Funcs {
+			if fn.Parent() != nil {
+				fmt.Printf("%s\t%s\n", an.OrdinalName(fn), an.FuncName(fn))
+			}
+		}
 	case "variant":
 		var only []string
 		if *prop != "" {
